@@ -105,7 +105,24 @@ func allOps(pos int, withInvalid bool) []Op {
 	return out
 }
 
+// longTails / contPayloads: a long payload (more than the buffer's 64-byte bootstrap size pending in one mode) that may end
+// inside a multi-byte sequence or a marker, and payloads that continue such a sequence.
+var longTails = []string{"", "é", "\xc3", "\xe2", "\xe2\x80", "\n", " "}
+var contPayloads = []string{"\xa9", "\xb9", "\x80\xb9", "\x80\xba@", "\xba"}
+var stringMethods = []string{"SafeString", "UnsafeString", "Write", "WriteString", "SafeBytes", "UnsafeBytes"}
+
 func randOp(r *Rng, pos int, pInvalid int) Op {
+	if pInvalid > 0 && r.Chance(1, 24) {
+		// outside the exhaustive alphabet: sizes and split sequences
+		m := stringMethods[r.Intn(len(stringMethods))]
+		var s string
+		if r.Bool() {
+			s = strings.Repeat("x", []int{60, 62, 63, 64, 65, 70, 130, 200}[r.Intn(8)]) + uniq("@", pos) + longTails[r.Intn(len(longTails))]
+		} else {
+			s = uniq(contPayloads[r.Intn(len(contPayloads))], pos)
+		}
+		return Op{M: m, S: s, V: utf8.ValidString(s)}
+	}
 	m := opMethods[r.Intn(len(opMethods))]
 	v, inv := opVariants(m, pos)
 	if len(inv) > 0 && r.Intn(100) < pInvalid {
